@@ -257,3 +257,17 @@ package boltz
 //@ func (Entity).GetId
 //@   pure
 //@   ensures[the-entity's-id] result == entId(ref(self))
+
+// ---- wiring: unique and set indexes are appended to the store's constraints while the stores are being set up ----
+//@ func (*Indexer).addUniqueIndex
+//@   props C03
+//@   nosafety
+//@   waive immutable wiring: constraints are appended while the stores are being set up, before any operation runs
+//@   modifies *
+//@   ensures[the-index-is-a-constraint-of-the-store] len(indexer.constraints) == old(len(indexer.constraints)) + 1 && istype(indexer.constraints[old(len(indexer.constraints))], *uniqueIndex) && as(indexer.constraints[old(len(indexer.constraints))], *uniqueIndex).symbol == symbol && as(indexer.constraints[old(len(indexer.constraints))], *uniqueIndex).nullable == nullable && forall(i, 0 <= i && i < old(len(indexer.constraints)) ==> indexer.constraints[i] == old(indexer.constraints[i]))
+//@ func (*Indexer).AddSetIndex
+//@   props C03
+//@   nosafety
+//@   waive immutable wiring: constraints are appended while the stores are being set up, before any operation runs
+//@   modifies *
+//@   ensures[the-index-is-a-constraint-of-the-store] len(indexer.constraints) == old(len(indexer.constraints)) + 1 && istype(indexer.constraints[old(len(indexer.constraints))], *setIndex) && as(indexer.constraints[old(len(indexer.constraints))], *setIndex).symbol == symbol && forall(i, 0 <= i && i < old(len(indexer.constraints)) ==> indexer.constraints[i] == old(indexer.constraints[i]))
